@@ -1,7 +1,32 @@
 package main
 
+import (
+	"fmt"
+	"strings"
+)
+
 // extraFacts / extraFiles: further facts, added property by property.
 
-func extraFacts(lf *leanFile) {}
+func extraFacts(lf *leanFile) {
+	// C03: which predecessor media types FilterArtifactType / FilterAnnotation fetch, and
+	// which manifest fields fetchArtifactType returns, in source order
+	factCaseList(lf, "filterATFetchTypes", "extendedcopy.go", "ExtendedCopyGraphOptions", "FilterArtifactType", "p.MediaType", "oras", 0)
+	factCaseList(lf, "filterAnnFetchTypes", "extendedcopy.go", "ExtendedCopyGraphOptions", "FilterAnnotation", "p.MediaType", "oras", 0)
+	fd := funcDecl("extendedcopy.go", "", "fetchArtifactType")
+	var rows []string
+	for _, c := range switchClauses(fd, "desc.MediaType", "oras") {
+		if c.dflt {
+			continue
+		}
+		fields := fieldsUsed(c.body, map[string]bool{"manifest": true, "index": true})
+		for _, v := range c.values {
+			rows = append(rows, fmt.Sprintf("(%s, %s)", leanStr(v), leanStrList(fields)))
+		}
+	}
+	if len(rows) == 0 {
+		miss("extendedcopy.go:fetchArtifactType switch desc.MediaType")
+	}
+	lf.def("fetchATCases", "List (String × List String)", "["+strings.Join(rows, ",\n   ")+"]")
+}
 
 func extraFiles() { regexFile() }
